@@ -318,7 +318,7 @@ def extract_item(spec, contracts, log):
     mode = spec.get('mode', 'verify')
     is_fn = re.match(r'(pub(\([^)]*\))?\s+)?(const\s+)?(unsafe\s+)?fn\b', text) is not None
 
-    if spec.get('strip_vis'):
+    if spec.get('strip_vis', is_fn):
         m = VIS.match(text)
         if m and m.end() > 0:
             edits.append((0, m.end(), 'SUB', ''))
